@@ -1,12 +1,13 @@
 """C14: batching loses nothing: buckets, loaders and collation preserve every utterance."""
 import copy
 import hashlib
+import itertools
 import warnings
 
 import numpy as np
 import torch
 
-from simkit.core import HarnessError, RunResult
+from simkit.core import HarnessError, RunResult, short_hash
 from simkit.simdist import SimDist, perturb_global_rngs
 from simkit.simfs import SimFS, patched, ROOT
 from . import corpus
@@ -100,6 +101,7 @@ def generate(rng, tier, index):
             ops.append(["perturb", rng.randrange(1, 1000)])
     ops.append(["epoch", rng.randrange(W)])
     sc["ops"] = ops
+    sc["exact_len"] = rng.random() < 0.25  # epochs consumed by taking exactly len(loader) batches
     return sc
 
 
@@ -568,6 +570,9 @@ def execute(sc):
                 if kind in ("spect", "lang") and not check_length_classes(res, sc, ld, lengths):
                     return res
             seed0 = loaders[0].batch_sampler.sampler.base_seed if sc["shuffle"] else None
+            exact_len = bool(sc.get("exact_len"))
+            if exact_len:
+                res.bump("probe.exact_length_consumer")
             for op in sc["ops"]:
                 if op[0] == "perturb":
                     perturb_global_rngs(op[1])
@@ -622,7 +627,8 @@ def execute(sc):
                         try:
                             L = len(ld)
                             got = []
-                            for b in ld:
+                            # (some scenarios: a consumer that takes exactly len(loader) batches and never asks for more)
+                            for b in (itertools.islice(ld, L) if exact_len and L else ld):
                                 got.append(b)
                                 if sc.get("len_mid_epoch") and len(got) == 1:
                                     len(ld)  # asking mid-epoch must not disturb the epoch in progress
